@@ -433,6 +433,9 @@ class MarkdownNormalizer(Renderer):
         # Reset the skip flag since we're not rendering a blank line
         self._skip_next_blank_line = False
 
+        # The first block inside the quote needs no separator line before it (a loose list
+        # there would otherwise put one in front of the quote's own first line).
+        self._suppress_item_break = True
         with self.container("> ", "> "):
             result = self.render_children(element).rstrip("\n")
             # Every line of a quote needs its marker: a completely empty line (such as the
@@ -783,6 +786,9 @@ class MarkdownNormalizer(Renderer):
         alert_header = f"{self._prefix}> [!{alert_type}]\n"
         self._prefix = self._second_prefix
 
+        # The first block inside the quote needs no separator line before it (a loose list
+        # there would otherwise put one in front of the quote's own first line).
+        self._suppress_item_break = True
         with self.container("> ", "> "):
             result = self.render_children(element).rstrip("\n")
             # Every line of a quote needs its marker: a completely empty line (such as the
